@@ -23,17 +23,22 @@ What is read from the source (AST only) and emitted as Lean definitions that the
   arguments with which the handler of the validator loop of `Parameter.validate` calls it (a function of (self.name, the name the
   exception carries)); `Parameter.raise_exception` (the required / conversion path) names `self.name`; and
   `Validator.validate_param` (abstract_validator.py): what it assigns to `ex.parameter_name` before re-raising;
+* the strict tests: the condition under which the `else` branch (no Parameter declared for the key) of the keyword loop and of the
+  positional loop raises TooManyArguments, each as a Boolean function of (strict, the key) - comparisons of the key with string
+  literals (`==`, `!=`, `in` / `not in` a tuple / list / set of literals or a STRING, which is a substring test), literals and
+  containers looked up through module-level constants; keys are numbers (indices into the table of names, emitted as `nameTable`);
 Anything outside these shapes raises Skip (the committed snapshot is used and the correspondence check alone decides).
 """
 import ast
-from extract import Skip, src, find_func, lean_bool, HEADER
+from extract import Skip, src, find_func, lean_bool, lean_str, HEADER
+from gen._validate_names import NAMES
 
 REL = 'pedantic/decorators/fn_deco_validate/fn_deco_validate.py'
 REL_P = 'pedantic/decorators/fn_deco_validate/parameters/abstract_parameter.py'
 
 REL_E = 'pedantic/decorators/fn_deco_validate/exceptions.py'
 REL_V = 'pedantic/decorators/fn_deco_validate/validators/abstract_validator.py'
-EMPTY_NAME = 11          # index of '' in the harness's table of names (props/_validate_common.py: NAMES)
+EMPTY_NAME = NAMES.index('')          # index of '' in the harness's table of names (gen/_validate_names.py)
 
 MODES = {'ARGS': '.args', 'KWARGS_WITH_NONE': '.kwWithNone', 'KWARGS_WITHOUT_NONE': '.kwWithoutNone'}
 
@@ -348,6 +353,103 @@ def gen_loop_order(fn):
     if sorted(kinds) != ['kw', 'pos', 'unused']:
         raise Skip(f'_wrapper_content: expected the three loops exactly once, found {kinds}')
     return found
+
+
+# ---------------------------------------------------------------- _wrapper_content: the strict tests
+
+def module_value(tree, name):
+    """the value expression of a name the module binds exactly once, by a plain top-level assignment"""
+    n_bind = 0
+    for n in ast.walk(tree):
+        if isinstance(n, ast.Name) and isinstance(n.ctx, (ast.Store, ast.Del)) and n.id == name:
+            n_bind += 1
+        elif isinstance(n, ast.arg) and n.arg == name:
+            n_bind += 1
+        elif isinstance(n, (ast.Import, ast.ImportFrom)) and any((a.asname or a.name.split('.')[0]) == name for a in n.names):
+            n_bind += 1
+        elif isinstance(n, (ast.FunctionDef, ast.AsyncFunctionDef, ast.ClassDef)) and n.name == name:
+            n_bind += 1
+        elif isinstance(n, (ast.Global, ast.Nonlocal)) and name in n.names:
+            n_bind += 1
+        elif isinstance(n, ast.ExceptHandler) and n.name == name:
+            n_bind += 1
+    top = [n for n in tree.body if isinstance(n, ast.Assign) and len(n.targets) == 1 and is_name(n.targets[0], name)]
+    return top[0].value if n_bind == 1 and len(top) == 1 else None
+
+
+def gen_strict_tests(tree, fn):
+    """(kw test, pos test): Lean Bool terms over `strict` and the key `k` (a number)"""
+    extra = {}            # string literals of the source outside the table of names get numbers behind it
+
+    def nid(lit):
+        if lit in NAMES:
+            return NAMES.index(lit)
+        return extra.setdefault(lit, len(NAMES) + len(extra))
+
+    def resolve(e):
+        for _ in range(5):
+            if not is_name(e):
+                break
+            v = module_value(tree, e.id)
+            if v is None:
+                break
+            e = v
+        return e
+
+    def key_test(key):
+        def atom(n):
+            if is_name(n, 'strict'):
+                return 'strict'
+            if isinstance(n, ast.Compare) and len(n.ops) == 1:
+                l, r, op = n.left, resolve(n.comparators[0]), n.ops[0]
+                if isinstance(op, (ast.Eq, ast.NotEq)):
+                    if is_name(r, key):
+                        l, r = r, resolve(l)
+                    if is_name(l, key) and isinstance(r, ast.Constant) and isinstance(r.value, str):
+                        return f"(k {'==' if isinstance(op, ast.Eq) else '!='} {nid(r.value)})"
+                if isinstance(op, (ast.In, ast.NotIn)) and is_name(l, key):
+                    neg = '!' if isinstance(op, ast.NotIn) else ''
+                    if isinstance(r, ast.Constant) and isinstance(r.value, str):
+                        # `k in '<string>'` is a SUBSTRING test: every name of the table that occurs in the string
+                        ids = [i for i, nm in enumerate(NAMES) if nm in r.value]
+                        return f"{neg}([{', '.join(map(str, ids))}].contains k)"
+                    if isinstance(r, (ast.Tuple, ast.List, ast.Set)) and all(isinstance(x, ast.Constant) and isinstance(x.value, str) for x in r.elts):
+                        return f"{neg}([{', '.join(str(nid(x.value)) for x in r.elts)}].contains k)"
+            return None
+        return atom
+
+    def loop_key(f):
+        it = f.iter
+        if isinstance(it, ast.Call) and isinstance(it.func, ast.Attribute) and it.func.attr == 'items' and is_name(it.func.value, 'kwargs') \
+                and isinstance(f.target, ast.Tuple) and is_name(f.target.elts[0]):
+            return 'kw', f.target.elts[0].id
+        if is_name(it, 'bound_args') and is_name(f.target):
+            return 'pos', f.target.id
+        return None
+
+    out = {}
+    for f in ast.walk(fn):
+        if not isinstance(f, ast.For) or loop_key(f) is None:
+            continue
+        which, key = loop_key(f)
+        hits = []
+        for branch in ast.walk(f):
+            if isinstance(branch, ast.If) and ast.unparse(branch.test) == f'{key} in parameter_dict':
+                els = branch.orelse
+                if len(els) == 1 and isinstance(els[0], ast.If) and any(
+                        isinstance(x, ast.Raise) and isinstance(x.exc, ast.Call) and is_name(x.exc.func, 'TooManyArguments') for x in els[0].body):
+                    if len(els[0].body) != 1:
+                        raise Skip(f'_wrapper_content: the strict branch of the {which} loop does more than raising')
+                    hits.append(els[0].test)
+                else:
+                    raise Skip(f'_wrapper_content: the else branch of `{key} in parameter_dict` ({which} loop) is not `if <test>: raise TooManyArguments`')
+        n_raise = sum(1 for x in ast.walk(f) if isinstance(x, ast.Raise) and isinstance(x.exc, ast.Call) and is_name(x.exc.func, 'TooManyArguments'))
+        if len(hits) != 1 or n_raise != 1 or which in out:
+            raise Skip(f'_wrapper_content: expected exactly one `raise TooManyArguments` in the {which} loop')
+        out[which] = bool_expr(hits[0], key_test(key))
+    if set(out) != {'kw', 'pos'}:
+        raise Skip('_wrapper_content: keyword / positional loop not found')
+    return out['kw'], out['pos']
 
 
 # ---------------------------------------------------------------- _wrapper_content: the *args test
@@ -702,6 +804,7 @@ def gen_validate(repo):
     per_call = all(bookkeeping_is_per_call(find_func(tree, f)) for f in ('_wrapper_content', 'wrapper', 'async_wrapper', '_split_by_signature'))
     stateless = validate_is_stateless(ptree)
     nm = gen_naming(ast.parse(src(repo, REL_E)), ptree, ast.parse(src(repo, REL_V)))
+    kw_strict, pos_strict = gen_strict_tests(tree, find_func(tree, '_wrapper_content'))
     under = ' | '.join(f'.{k} => {lean_bool(u)}' for k, u in sorted(loops))
     return HEADER.format(rel=REL + ', ' + REL_P + ', ' + REL_E + ' and ' + REL_V) + f'''set_option linter.unusedVariables false
 namespace PedVerif.Gen.Validate
@@ -758,6 +861,15 @@ def loopOrder : List Loop := [{', '.join('.' + k for k, _ in loops)}]
 /-- the loop sits under `if not ignore_input:` -/
 def underIgnoreInput : Loop → Bool
   | {under}
+
+/-- the harness's table of names: a key / parameter name is its index in this table -/
+def nameTable : List String := [{', '.join(lean_str(n) for n in NAMES)}]
+/-- the `else` branch (no Parameter declared for the key) of the keyword loop: `if <this>: raise TooManyArguments`, as a function
+    of `strict` and the key -/
+def kwStrictTest (strict : Bool) (k : Nat) : Bool := {kw_strict}
+/-- the same branch of the positional loop (`for k in bound_args`).  Comparisons of the key with string literals are translated
+    through `nameTable`; `k in <string>` is Python's substring test: the names of the table that occur in the string -/
+def posStrictTest (strict : Bool) (k : Nat) : Bool := {pos_strict}
 
 /-- `wants_args = <rule>` as a function of "the text `*args` occurs in `str(signature)`" and "a parameter of the
     signature is named `args`"; `false` when the source has no such test (it looks the VAR_POSITIONAL parameter up instead) -/
